@@ -278,7 +278,15 @@ func (c *client) SendBatch(ctx context.Context, batch []hrpc.Call) (
 	backoff := backoffStart
 
 	for {
-		rpcByClient, ok := c.findClients(ctx, batch, res)
+		// findClients reports errors by position in batch, which in a
+		// retry round is not the position of the call in res.
+		found := make([]hrpc.RPCResult, len(batch))
+		rpcByClient, ok := c.findClients(ctx, batch, found)
+		for i, rpc := range batch {
+			if found[i].Error != nil {
+				res[rpcToRes[rpc]].Error = found[i].Error
+			}
+		}
 		if !ok {
 			return res, false
 		}
